@@ -1,4 +1,5 @@
 import T4V.Model.Lattice
+import T4V.Proofs.LatticeArg
 import T4V.Spec.MCNP
 import Mathlib.Tactic.FieldSimp
 import Mathlib.Tactic.Ring
@@ -307,5 +308,15 @@ end
 example : latIndices [(-1, 1), (-2, 2)] =
     [[-1, -2], [0, -2], [1, -2], [-1, -1], [0, -1], [1, -1], [-1, 0], [0, 0], [1, 0], [-1, 1], [0, 1], [1, 1],
      [-1, 2], [0, 2], [1, 2]] := by decide
+
+/-! ### the ranges of `--lattice` -/
+
+/-- **`--lattice cell,i_min:i_max[,j_min:j_max[,k_min:k_max]]` is read as written**: the cell number and the one to
+three ranges, in order, for all integers (negative and degenerate ranges included) -/
+theorem lattice_option_read_as_written (cell : Int) (rs : List (Int × Int)) (h1 : 1 ≤ rs.length) (h3 : rs.length ≤ 3) :
+    LA.parseOption (LAP.optionText cell rs) = .ok (cell, rs) :=
+  LAP.parseOption_optionText cell rs h1 h3
+
+example : LAP.optionText 200 [(2, 5), (-4, 4)] = "200,2:5,-4:4".toList := by decide
 
 end T4V.C06
